@@ -234,6 +234,8 @@ def _object_bin_events(args):
         sh = rnd.choice(LEVEL_SHIFTS[:4])
         size = 1 << sh
         base = rnd.randrange(1, max(2, min(200, MAXC // size - 2))) * size
+        if rnd.random() < 0.15:
+            base, size = MAXC, 1 << 17  # the end of the binning scheme itself (2^29): beyond it everything is bin 1
         a = max(0, base + rnd.choice([-1500, -900, -3, -1, 0, 1, 5]))
         return a, size
 
